@@ -13,8 +13,14 @@ htp_status_t htp_connp_req_receiver_finalize_clear(htp_connp_t *c){ return HTP_O
 htp_status_t htp_hook_run_all(htp_hook_t *hook, void *user_data){ return HTP_OK; }
 static htp_cfg_t CFG; static htp_connp_t C; static htp_tx_t TX; static htp_conn_t CONN; static htp_uri_t URI;
 /* name with symbolic letter case */
-static size_t put_name(unsigned char *o, const char *nm){ size_t k=0; unsigned bits=in_uint(); for(size_t i=0;nm[i];i++){ unsigned char c=(unsigned char)nm[i]; if(c>='a'&&c<='z'&&((bits>>i)&1)) c-=32; o[k++]=c; } return k; }
-static size_t put_ows(unsigned char *o){ unsigned n=in_range(0,2); size_t k=0; for(unsigned i=0;i<2;i++) if(i<n) o[k++]=in_bool()?' ':'\t'; return k; }
+#ifndef CASEMASK
+#define CASEMASK 0xffffffffu
+#endif
+static size_t put_name(unsigned char *o, const char *nm){ size_t k=0; unsigned bits=in_uint()&CASEMASK; for(size_t i=0;nm[i];i++){ unsigned char c=(unsigned char)nm[i]; if(c>='a'&&c<='z'&&((bits>>i)&1)) c-=32; o[k++]=c; } return k; }
+#ifndef OWSMAX
+#define OWSMAX 2
+#endif
+static size_t put_ows(unsigned char *o){ unsigned n=in_range(0,OWSMAX); size_t k=0; for(unsigned i=0;i<2;i++) if(i<n) o[k++]=in_bool()?' ':'\t'; return k; }
 static void feed_line(unsigned char *l, size_t n){ assert(n<=48); assert(htp_process_request_header_generic(&C,l,n)==HTP_OK); }
 static unsigned char L0[48], L1[48], L2[48], L3[48]; static unsigned char *L[4]={L0,L1,L2,L3}; static size_t LN[4];
 static void gen_cl(int k, unsigned fmt, unsigned char d){ unsigned char *o=L[k]; size_t n=put_name(o,"content-length"); o[n++]=':'; n+=put_ows(o+n);
